@@ -588,7 +588,7 @@ LI_OK = [0, 1, 2, 3]
 
 
 @harness(
-    "C01", timeout=(150, 1200),
+    "C01", timeout=(250, 1200),
     shards=_assoc_shards,
     functions=["pdu:A_ASSOCIATE_RQ.encode/decode/from_primitive/to_primitive/pdu_length", "pdu:A_ASSOCIATE_AC.*",
                "pdu:PDU._generate_items/_wrap_generate_items/_wrap_encode_str", "pdu_items:UserInformationItem.*",
